@@ -22,6 +22,11 @@ E == T[l]
 G == Tr.given
 Ref == Tr.ref
 Is(e) == l <= Len(T) /\ E.ev = e /\ pend = <<>>
+\* SOFT clauses ("this header field carries the value supplied / describes the file", "parse() recovers this field"): TLC evaluates them and
+\* records the NAME of every one that fails in a per-trace register, but goes on, so that one wrong header field does not hide what comes
+\* after it.  Everything else is HARD: a trace that is not consumed to its end is reported with REJ.  Both lists are printed by Post.
+SoftBase == 1000000
+Soft(name, ok) == IF ok THEN TRUE ELSE TLCSet(SoftBase + tid, TLCGet(SoftBase + tid) \cup {name})
 Bound == Tr.kind = "rom"       \* kind "anchor": a golden file of the reference tool, walked by the automaton alone (no builder input to compare with)
 Adv == l' = l + 1 /\ UNCHANGED tid
 NoP == UNCHANGED <<psec, pcmd>>
@@ -68,21 +73,24 @@ FieldOk(n) ==
     [] n = "section_id"        -> Len(dec) <= Len(G.secs) /\ dec[Len(dec)].uid = G.secs[Len(dec)].uid
     [] n = "hmac_count"        -> Len(dec) <= Len(G.secs) /\ dec[Len(dec)].hmacCount = Min(G.secs[Len(dec)].hmacReq, hm.count)
     [] OTHER -> FALSE
-Waived(n) == \E i \in 1..Len(Tr.waive) : Tr.waive[i] = n
 
-TInit == /\ tid \in 1..Len(Traces) /\ l = 1 /\ RInit /\ pend = <<>> /\ psec = 0 /\ pcmd = 0 /\ TLCSet(tid, 1)
+TInit == /\ tid \in 1..Len(Traces) /\ l = 1 /\ RInit /\ pend = <<>> /\ psec = 0 /\ pcmd = 0 /\ TLCSet(tid, 1) /\ TLCSet(SoftBase + tid, {})
 
 TField == /\ l <= Len(T) /\ E.ev = "Field" /\ pend # <<>> /\ E.name = Head(pend)
-          /\ (Waived(E.name) \/ FieldOk(E.name))
+          /\ Soft(E.name, FieldOk(E.name))
           /\ pend' = Tail(pend) /\ UNCHANGED rvars /\ NoP /\ Adv
 
-TParseHeader == /\ Is("ParseHeader") /\ Tr.kind \in {"rom", "anchor"} /\ ParseHeader(E)
+\* image_blocks is soft: the automaton goes on with the value the file itself demands (SB 2.1 / unsigned SB 2.0: the number of blocks of the file)
+ImageBlocksFixed(e) == IF e.minor = 1 \/ e.flags = FlagUnsigned THEN e.fileBlocks ELSE e.imageBlocks
+TParseHeader == /\ Is("ParseHeader") /\ Tr.kind \in {"rom", "anchor"} /\ E.longEnough
+                /\ Soft("image_blocks", E.imageBlocks = ImageBlocksFixed(E))
+                /\ ParseHeader([E EXCEPT !.imageBlocks = ImageBlocksFixed(E)])
                 /\ pend' = (IF Bound THEN HeaderMarkers ELSE <<>>) /\ NoP /\ Adv
 TUnwrap == Is("UnwrapKeyBlob") /\ UnwrapKeyBlob(E) /\ UNCHANGED pend /\ NoP /\ Adv
 THdrMac == Is("CheckHeaderMac") /\ (CheckHeaderMac20(E) \/ CheckHeaderMac21(E)) /\ UNCHANGED pend /\ NoP /\ Adv
 CertGiven == E.count = G.chain /\ E.rootIdx = G.rootIdx /\ E.rkth = G.rkth       \* the chain and the root-key table that were supplied
 TCert == Is("ParseCertBlock") /\ (ParseCertBlock21(E) \/ ParseCertBlock20(E)) /\ (Bound => CertGiven) /\ UNCHANGED pend /\ NoP /\ Adv
-TSig == Is("VerifySignature") /\ (VerifySignature21(E) \/ VerifySignature20(E)) /\ (Bound => E.sigLen = G.sigLen) /\ UNCHANGED pend /\ NoP /\ Adv
+TSig == Is("VerifySignature") /\ ((VerifySignature21(E) /\ Soft("first_boot_tag_block", FirstTag21Ok(E))) \/ VerifySignature20(E)) /\ (Bound => E.sigLen = G.sigLen) /\ UNCHANGED pend /\ NoP /\ Adv
 TSha == Is("CheckSha") /\ CheckSha(E) /\ UNCHANGED pend /\ NoP /\ Adv
 TTag == /\ Is("SectionTag") /\ SectionTag(E)
         /\ pend' = (IF E.cert \/ ~Bound THEN <<>> ELSE SectionMarkers)
@@ -110,7 +118,7 @@ TPOutcome == /\ Is("ParseOutcome") /\ Tr.kind = "parse" /\ st = "Header"
                 \/ E.outcome = "raised" /\ Tr.mode # "clean" /\ st' = "PRaised"
              /\ UNCHANGED <<hdr, cur, sec, needCert, hm, body, left, cmdAt, cov, certEnd, sigEnd, macSum, dec, pend>> /\ NoP /\ Adv
 PStay == UNCHANGED rvars /\ UNCHANGED pend
-TPField == Is("PField") /\ st = "PContent" /\ psec = 0 /\ (Waived(E.name) \/ PFieldOk(E.name, E.got)) /\ PStay /\ NoP /\ Adv
+TPField == Is("PField") /\ st = "PContent" /\ psec = 0 /\ Soft("parse:" \o E.name, PFieldOk(E.name, E.got)) /\ PStay /\ NoP /\ Adv
 TPSection == /\ Is("PSection") /\ st = "PContent" /\ pcmd = 0
              /\ psec + 1 <= Len(Ref.secs) /\ E.uid = Ref.secs[psec + 1].uid
              /\ psec' = psec + 1 /\ pcmd' = 0 /\ st' = "PSection" /\ UNCHANGED <<hdr, cur, sec, needCert, hm, body, left, cmdAt, cov, certEnd, sigEnd, macSum, dec, pend>> /\ Adv
@@ -127,7 +135,9 @@ TNext == TField \/ TParseHeader \/ TUnwrap \/ THdrMac \/ TCert \/ TSig \/ TSha \
          \/ TPOutcome \/ TPField \/ TPSection \/ TPCmd \/ TPSectionEnd \/ TPEnd
 Constr == IF TLCGet(tid) < l THEN TLCSet(tid, l) ELSE TRUE
 Post == \A i \in 1..Len(Traces) :
-          \/ TLCGet(i) - 1 = Len(Traces[i].ev)
-          \/ PrintT(<<"REJ", Traces[i].id, TLCGet(i) - 1, Len(Traces[i].ev),
-                      Traces[i].ev[IF TLCGet(i) <= Len(Traces[i].ev) THEN TLCGet(i) ELSE Len(Traces[i].ev)].ev>>)
+          /\ \/ TLCGet(i) - 1 = Len(Traces[i].ev)
+             \/ PrintT(<<"REJ", Traces[i].id, TLCGet(i) - 1, Len(Traces[i].ev),
+                         Traces[i].ev[IF TLCGet(i) <= Len(Traces[i].ev) THEN TLCGet(i) ELSE Len(Traces[i].ev)].ev>>)
+          /\ \/ TLCGet(SoftBase + i) = {}
+             \/ \A n \in TLCGet(SoftBase + i) : PrintT(<<"SOFT", Traces[i].id, n>>)
 =============================================================================
